@@ -203,6 +203,16 @@ func acquire(s *sched.Sched, ls *LockStats, st *verifrt.LockState, write bool) {
 	}
 	ls.Acquires++
 	s.Yield()
+	if write && !st.FreeIgnoringWaiters(true) {
+		// a writer that has to wait is pending from now on: readers that ask later queue up behind it
+		st.AddWaiting(1)
+		for !st.FreeIgnoringWaiters(true) {
+			ls.Blocks++
+			s.Block(st.Ptr())
+		}
+		st.AddWaiting(-1)
+		return
+	}
 	for !st.Free(write) {
 		ls.Blocks++
 		s.Block(st.Ptr())
